@@ -72,7 +72,15 @@ def st_history():
     common_filter = st.lists(st.sampled_from(few + few + ['urn:foreign:action']), min_size=1, max_size=3, unique=True)
     first = st.lists(st.tuples(st.just('subscribe'), sub, common_filter, st.integers(2, 40),
                                st.booleans(), st.booleans()).map(list), min_size=2, max_size=4)
-    body = st.lists(st.one_of(step, st.tuples(st.just('report'), st.sampled_from(few)).map(list)), min_size=2, max_size=22)
+    report_few = st.tuples(st.just('report'), st.sampled_from(few)).map(list)
+    # the situation the property is about: a subscription ends (unsubscribe / delivery failures / expiry) and reports go on
+    ending = st.one_of(
+        st.tuples(st.tuples(st.just('unsubscribe'), sub).map(list), report_few).map(list),
+        st.tuples(st.tuples(st.just('set_fault'), sub, st.sampled_from(['http500', 'http404', 'refused', 'timeout'])).map(list),
+                  report_few, report_few, report_few, report_few).map(list),
+        st.tuples(st.tuples(st.just('advance'), st.sampled_from([5, 11, 31])).map(list), st.just(['tick']), report_few).map(list))
+    body = st.lists(st.one_of(step.map(lambda x: [x]), report_few.map(lambda x: [x]), ending, ending), min_size=2, max_size=16).map(
+        lambda blocks: [x for b in blocks for x in b][:24])
     return st.tuples(st.sampled_from(VARIANTS), st.tuples(first, body).map(lambda t: t[0] + t[1]),
                      st.sampled_from([None, True, False]))
 
